@@ -12,8 +12,8 @@ ACTIONS = ["MakeText", "MakeBin", "Reparse", "Props", "Mutate", "MutateSource", 
            "GetNetwork", "ToStr6", "SetMac6", "CidrToMask", "MaskToCidr", "ParseCidr", "DpidToStr",
            "StrToDpid", "DpidRound"]
 EXPORTS = {"quick": ["EX_q_v4.cfg", "EX_q_v6.cfg", "EX_q_md.cfg"],
-           "thorough": ["EX_q_v4.cfg", "EX_q_v6.cfg", "EX_t_v4a.cfg", "EX_t_v4b.cfg", "EX_t_v6a.cfg", "EX_t_v6b.cfg",
-                        "EX_t_v6c.cfg", "EX_t_v6d.cfg", "EX_t_md.cfg"]}
+           "thorough": ["EX_q_v4.cfg", "EX_q_v6.cfg", "EX_t_v4a.cfg", "EX_t_v4b.cfg", "EX_t_v4c.cfg", "EX_t_v6a.cfg",
+                        "EX_t_v6b.cfg", "EX_t_v6c.cfg", "EX_t_v6d.cfg", "EX_t_md.cfg"]}
 
 
 def _parallel(jobs, limit):
@@ -80,7 +80,7 @@ def run(ctx):
   agg = collections.Counter()
   # 1. model-check + export every transition (spec -> code)
   jobs = [_export(c) for c in EXPORTS[ctx.tier]]
-  results = _parallel(jobs, 6)
+  results = _parallel(jobs, 10)
   for cfg, (r, behs) in zip(EXPORTS[ctx.tier], results):
     ctx.add_model("Addr %s (all invariants/action properties, every transition exported)" % cfg, r)
     for a, (_, n) in r.coverage.items():
